@@ -595,7 +595,7 @@ func runNative(bin, dir, harness string, model map[string]uint64, params map[str
 	mb, _ := json.Marshal(map[string]interface{}{"model": model, "params": params})
 	os.WriteFile(mf, mb, 0o644)
 	defer os.Remove(mf)
-	cmd := exec.Command(bin, "-test.run", "^TestVerifReplay$", "-test.count=1", "-test.timeout=120s")
+	cmd := exec.Command(bin, "-test.run", "^TestVerifReplay$", "-test.count=1", "-test.timeout=30s")
 	cmd.Dir = dir
 	cmd.Env = append(os.Environ(), "VERIF_MODEL="+mf, "VERIF_HARNESS="+harness)
 	var buf bytes.Buffer
